@@ -149,6 +149,11 @@ class Policy:
         return "inline"
 
 
+def st_fill_probe(ex, st, changed):
+    """state in which to re-run a fill body so that its assert sites are recorded once"""
+    return st.fork()
+
+
 class Exec:
     def __init__(self, F, policy=None, budget=20000):
         self.F = F
@@ -157,57 +162,140 @@ class Exec:
         self.depth = 0
         self.active_loops = set()
         self.nloop = 0
+        self.ivar_bounds = {}
+        self.loop_info = {}
+        self.sites = []  # panic sites visited: dicts(fn, block, kind, operands, facts)
+
+    def iter_item(self, st, itv, loopid):
+        """item produced by one `Iterator::next` of the iterable value itv, plus its bounds record"""
+        if isinstance(itv, tuple) and itv[0] == "adt" and str(itv[1]).endswith("Range"):
+            d = dict(itv[3])
+            iv = ("ivar", loopid)
+            self.ivar_bounds[iv] = {"start": d["start"], "end": d["end"], "array": None}
+            return iv
+        if isinstance(itv, tuple) and itv[0] == "sliceiter":
+            iv = ("ivar", loopid)
+            self.ivar_bounds[iv] = {"start": itv[2], "end": itv[3], "array": itv[1]}
+            return ("ref", itv[1], iv)
+        if isinstance(itv, tuple) and itv[0] == "copied":
+            inner = self.iter_item(st, itv[1], loopid)
+            return self.deref_val(st, inner) if inner is not None and inner[0] == "ref" else inner
+        if isinstance(itv, tuple) and itv[0] == "enumerate":
+            inner = self.iter_item(st, itv[1], loopid)
+            iv = inner[2] if inner[0] == "ref" else inner
+            return ("adt", "tuple", (0, ""), (("0", iv), ("1", inner)), False)
+        return None
 
     def summarize_loop(self, fr, st, h):
-        """Counted fill loops only:  for i in a..b { buf[i] = v }  (v loop-invariant).
-        Anything else raises HasLoop (the caller fails closed or uses another engine)."""
+        """Iterator-driven loops. Recognised summaries:
+             fill    for i in a..b { buf[i] = v }          -> buf = fill(buf, a, b, v)
+             accum   acc = acc + e   (e free of acc)        -> ('accum', init, e, loop)
+             pick    x = gamma(.., e, x) / x = e            -> ('pick', init, (e..), loop)   value is init or some e
+           anything else written by the body becomes ('havoc', ..). Loops not driven by Iterator::next raise HasLoop."""
         fn = fr.fn
         cfg = fr.cfg
-        body = cfg.loops()[h]
         blk = fn.block_by_id[h]
         t = blk["term"]
-        if t["k"] != "call" or not re.search(r"Range<usize>.*Iterator.*::next$|iter::range::.*Range<.*>>::next$", callees.callee_name(t["callee"])):
-            raise HasLoop("%s: loop at bb%d is not driven by Range<usize>::next" % (fn.label, h))
+        nm = callees.callee_name(t["callee"]) if t["k"] == "call" else ""
+        if t["k"] != "call" or not re.search(r"iter::Iterator>::next$|Iterator for .*>::next$", callees.strip_turbofish(nm)):
+            raise HasLoop("%s: loop at bb%d is not driven by Iterator::next" % (fn.label, h))
         for s_ in blk["stmts"]:
             if s_["k"] == "assign":
                 self.write_place(fr, st, s_["place"], self.rvalue(fr, st, s_["rv"]))
         it = self.operand(fr, st, t["args"][0])
-        rng = self.deref_val(st, self.deref_val(st, it))
-        if not (isinstance(rng, tuple) and rng[0] == "adt" and str(rng[1]).endswith("Range")):
-            raise HasLoop("%s: iterator of the loop at bb%d is not a Range value" % (fn.label, h))
-        d = dict(rng[3])
-        start, end = d["start"], d["end"]
+        itv = self.deref_val(st, self.deref_val(st, it))
         self.nloop += 1
-        ivar = ("ivar", self.nloop)
-        s2 = st.fork()
-        self.write_place(fr, s2, t["dest"], ("adt", "Option", (1, "Some"), (("0", ivar),), True))
-        self.active_loops.add((fr.id, h))
-        try:
-            out = self.run(fr, t["target"], s2, h)
-        finally:
-            self.active_loops.discard((fr.id, h))
-        if out is None or getattr(out, "returned", False):
-            raise HasLoop("%s: loop body at bb%d leaves the loop irregularly" % (fn.label, h))
-        if out.steps != st.steps:
-            raise HasLoop("%s: loop at bb%d calls a component" % (fn.label, h))
+        loopid = self.nloop
+        item = self.iter_item(st, itv, loopid)
+        if item is None:
+            raise HasLoop("%s: iterator of the loop at bb%d is not a recognised Range / slice iterator (%s)" % (fn.label, h, show(itv)[:80]))
+        some = ("adt", "Option", (1, "Some"), (("0", item),), True)
+        # the iterator variable itself is consumed by the loop
+        itpath = it[1] if isinstance(it, tuple) and it[0] == "ref" else None
+
+        def body(state):
+            self.write_place(fr, state, t["dest"], some)
+            self.active_loops.add((fr.id, h))
+            try:
+                out = self.run(fr, t["target"], state, h)
+            finally:
+                self.active_loops.discard((fr.id, h))
+            if out is None or getattr(out, "returned", False):
+                raise HasLoop("%s: loop body at bb%d leaves the loop irregularly" % (fn.label, h))
+            if out.steps != state_steps[0]:
+                raise HasLoop("%s: loop at bb%d calls a component" % (fn.label, h))
+            return out
+
+        state_steps = [st.steps]
+        n_asserts = len(st.asserts)
+        saved_sites = list(self.sites)
+        out1 = body(st.fork())
+        self.sites = saved_sites  # first pass is only for discovery
         changed = {}
-        for k, v in out.store.m.items():
-            if not isinstance(k[0], str):
+        for k, v in out1.store.m.items():
+            if k == itpath or (itpath and k[:len(itpath)] == itpath):
                 continue
             old = self._try_read(st, k)
             if old is None:
-                old = ("pre", pstr(k))
+                if isinstance(k[0], str):
+                    old = ("pre", pstr(k))
+                else:
+                    continue  # temp born inside the body
             if v != old:
-                changed[k] = (old, v)
-        for k, (old, v) in changed.items():
-            if not (isinstance(v, tuple) and v[0] == "store" and v[1] == old and v[2] == ivar):
-                raise HasLoop("%s: loop at bb%d is not a plain fill of %s" % (fn.label, h, pstr(k)))
-            from terms import subterms
-            if any(x == ivar or (x[0] == "pre" and any(x[1] == pstr(c) for c in changed)) for x in subterms(v[3])):
-                raise HasLoop("%s: fill value in loop at bb%d is not loop-invariant" % (fn.label, h))
-        for k, (old, v) in changed.items():
-            st.store.write(k, ("fill", old, start, end, v[3]))
-        st.asserts = out.asserts
+                changed[k] = old
+        iv = ("ivar", loopid)
+        # --- fill idiom
+        fill = {}
+        is_fill = bool(changed)
+        for k, old in changed.items():
+            v = out1.store.m[k]
+            if isinstance(k[0], str) and isinstance(v, tuple) and v[0] == "store" and v[1] == old and v[2] == iv and item == iv:
+                from terms import subterms
+                if any(x == iv or (x[0] == "pre" and any(x[1] == pstr(c) for c in changed)) for x in subterms(v[3])):
+                    is_fill = False
+                fill[k] = v[3]
+            elif isinstance(k[0], str):
+                is_fill = False
+            else:
+                # a local rewritten by the body that was live before: not a pure fill
+                is_fill = False
+        if is_fill:
+            b = self.ivar_bounds[iv]
+            for k, v in fill.items():
+                st.store.write(k, ("fill", changed[k], b["start"], b["end"], v))
+            st.asserts = out1.asserts
+            # keep the assert sites of the body (evaluated with the loop variable symbolic)
+            self.sites = saved_sites
+            out1b = body(st_fill_probe(self, st, changed))
+            self.write_place(fr, st, t["dest"], ("adt", "Option", (0, "None"), (), True))
+            return st, t["target"]
+        # --- general case: loop-carried values become symbols, the body is evaluated once more
+        s3 = st.fork()
+        for k in changed:
+            s3.store.write(k, ("lv", loopid, pstr(k)))
+        out2 = body(s3)
+        from terms import subterms
+        for k, old in changed.items():
+            lv = ("lv", loopid, pstr(k))
+            v = out2.store.m.get(k)
+            if v is None:
+                v = self._try_read(out2, k)
+            summ = None
+            if isinstance(v, tuple) and v[0] == "+" and (v[1] == lv or v[2] == lv):
+                e = v[2] if v[1] == lv else v[1]
+                if not any(x == lv for x in subterms(e)):
+                    summ = ("accum", old, e, loopid)
+            if summ is None and isinstance(v, tuple):
+                from terms import leaves
+                ls = [l for _, l in leaves(v)]
+                others = [l for l in ls if l != lv]
+                if all(not any(x == lv for x in subterms(l)) for l in others):
+                    summ = ("pick", old, tuple(dict.fromkeys(others)), loopid)
+            if summ is None:
+                summ = ("havoc", loopid, pstr(k))
+            st.store.write(k, summ)
+        st.asserts = out2.asserts
+        self.loop_info[loopid] = {"fn": fn.label, "header": h, "item": item, "changed": [pstr(k) for k in changed]}
         self.write_place(fr, st, t["dest"], ("adt", "Option", (0, "None"), (), True))
         return st, t["target"]
 
@@ -402,10 +490,17 @@ class Exec:
             if kind.startswith("PointerCoercion") or kind in ("PtrToPtr", "Subtype"):
                 return a
             if kind == "IntToInt":
+                if is_const(a):
+                    return C("int", int(a[2]))
                 return ("int_cast", rv["ty"]["s"], a)
             return ("cast", kind, rv["ty"]["s"], a)
         if k in ("ref", "rawptr"):
-            path, idx = self.place_path(fr, st, rv["place"])
+            pl = rv["place"]
+            if len(pl["proj"]) == 1 and pl["proj"][0]["k"] == "deref":
+                v = self.read_path(st, (("L", fr.id, pl["local"]),)) if pl["local"] not in fr.param_roots else None
+                if isinstance(v, tuple) and v and v[0] in ("sliceiter", "enumerate", "ref"):
+                    return v  # reborrow
+            path, idx = self.place_path(fr, st, pl)
             return ("ref", path, idx)
         if k == "discriminant":
             v = self.read_place(fr, st, rv["place"])
@@ -512,6 +607,7 @@ class Exec:
         """execute from block b until `stop` (exclusive). Returns state or None (diverged)."""
         fn = fr.fn
         cfg = fr.cfg
+        self.cur_fn_label, self.cur_fn_path = fn.label, fn.path
         while b != stop:
             self.budget -= 1
             if self.budget < 0:
@@ -545,9 +641,24 @@ class Exec:
             elif k == "assert":
                 m = t["msg"]
                 st.asserts = st.asserts + ((fn.label, m["kind"], t["span"]["line"]),)
+                ops = {}
+                for key in ("len", "index", "a", "b"):
+                    if key in m and isinstance(m[key], dict):
+                        try:
+                            ops[key] = self.operand(fr, st, m[key])
+                        except Unsupported:
+                            ops[key] = ("unknown",)
+                try:
+                    ops["cond"] = self.operand(fr, st, t["cond"])
+                    ops["expected"] = t["expected"]
+                except Unsupported:
+                    pass
+                self.sites.append({"fn": fn.label, "path": fn.path, "block": b, "what": "assert", "kind": m["kind"], "op": m.get("op"),
+                                   "operands": ops, "facts": dict(st.facts), "span": t["span"], "root_depth": self.depth})
                 b = t["target"]
             elif k == "call":
                 self.call(fr, st, t)
+                self.cur_fn_label, self.cur_fn_path = fn.label, fn.path
                 if t["target"] is None:
                     return None
                 b = t["target"]
@@ -793,12 +904,46 @@ class Exec:
             old = self.read_path(st, args[0][1])
             st.store.write(args[0][1], ("fill", old, cu(0), self.length(old), args[1]))
             return UNIT
+        if re.search(r"slice::index::<impl (std|core)::ops::Index<.*> for \[[^\]]*\]>::index$|<\[[^\]]*\] as (std|core)::ops::Index<.*>>::index$", callees.strip_turbofish(n)):
+            base = args[0]
+            rng = args[1]
+            if isinstance(base, tuple) and base[0] == "ref" and base[2] is None and isinstance(rng, tuple) and rng[0] == "adt":
+                d = dict(rng[3])
+                arr = self.read_path(st, base[1])
+                ln = self.length(arr)
+                start = d.get("start", cu(0))
+                end = d.get("end", ln)
+                kind = str(rng[1]).split("::")[-1]
+                if kind in ("Range", "RangeTo", "RangeFrom", "RangeFull"):
+                    self.sites.append({"fn": self.cur_fn_label, "path": self.cur_fn_path, "block": None, "what": "slice-index", "kind": kind,
+                                       "operands": {"start": start, "end": end, "len": ln, "array": base[1]}, "facts": dict(st.facts), "span": t["span"], "root_depth": self.depth})
+                    return ("sliceiter", base[1], start, end)
+            raise Unsupported("slice index with unrecognised operands: " + n)
+        if re.search(r"<impl \[[^\]]*\]>::iter$", callees.strip_turbofish(n)) and isinstance(args[0], tuple) and args[0][0] == "sliceiter":
+            return args[0]
+        if re.search(r"iter::Iterator>::(copied|cloned)$|iter::Iterator::(copied|cloned)$", callees.strip_turbofish(n)) and isinstance(args[0], tuple) and args[0][0] in ("sliceiter", "enumerate"):
+            return ("copied", args[0])
+        if re.search(r"<impl \[[^\]]*\]>::iter$", callees.strip_turbofish(n)) and isinstance(args[0], tuple) and args[0][0] == "ref" and args[0][2] is None:
+            arr = self.read_path(st, args[0][1])
+            return ("sliceiter", args[0][1], cu(0), self.length(arr))
+        if re.search(r"iter::Iterator>::enumerate$|iter::Iterator::enumerate$", callees.strip_turbofish(n)):
+            return ("enumerate", args[0])
+        if re.search(r"IntoIterator.*::into_iter$", callees.strip_turbofish(n)):
+            a0 = args[0]
+            if isinstance(a0, tuple) and a0[0] == "ref" and a0[2] is None and not isinstance(a0[1][0], str):
+                inner = self.deref_val(st, a0)
+                if isinstance(inner, tuple) and inner[0] in ("sliceiter", "enumerate"):
+                    return inner
+            if isinstance(a0, tuple) and a0[0] == "ref" and a0[2] is None and isinstance(a0[1][0], str):
+                arr = self.read_path(st, a0[1])
+                return ("sliceiter", a0[1], cu(0), self.length(arr))
+            return a0
         m = re.search(r"fmt::rt::Argument::<.*>::new_(\w+)", n)
         if m:
             return ("fmtarg", m.group(1), dv[0])
         if re.search(r"vec::from_elem\b", n):
             return ("fromelem", args[0], args[1])
-        if re.search(r"into_boxed_slice$", n) or re.search(r"IntoIterator.*into_iter$", n):
+        if re.search(r"into_boxed_slice$", n):
             return args[0]
         if re.search(r"clone::Clone>::clone$|clone::impls::.*::clone$|Clone::clone$", n):
             return dv[0]
